@@ -61,7 +61,11 @@ let rec print (b : Buffer.t) (x : Model.sx) : unit =
     List.iteri (fun i y -> if i > 0 then Buffer.add_char b ','; print b y) l;
     Buffer.add_char b ']'
 
+exception Timeout
+
 let () =
+  let limit = try int_of_string (Sys.getenv "VERIF_MODEL_TIMEOUT_S") with _ -> 10 in
+  Sys.set_signal Sys.sigalrm (Sys.Signal_handle (fun _ -> raise Timeout));
   let b = Buffer.create 65536 in
   (try
      while true do
@@ -75,8 +79,12 @@ let () =
          Buffer.add_char b '\t';
          (try
             let (x, _) = parse body 0 in
-            print b (Model.e_dispatch x)
+            ignore (Unix.alarm limit);
+            let r = Model.e_dispatch x in
+            ignore (Unix.alarm 0);
+            print b r
           with
+          | Timeout -> Buffer.add_string b "[\"model-timeout\"]"
           | Stack_overflow -> Buffer.add_string b "[\"stackoverflow\"]"
           | Failure m -> Buffer.add_string b ("[\"driver-error\",\"" ^ String.escaped m ^ "\"]"));
          Buffer.add_char b '\n';
